@@ -392,6 +392,10 @@ def c01_3(c: Ctx) -> None:
     for u, call in sites:
         g = c.cfg(u)
         st = q.stmt_of(call)
+        if call_name(call) == 'get_nowait' and isinstance(parent_of(call), ast.Return) and u.name == '_get_next_event':
+            # handed straight back to the caller, like the awaited get(): what the callers of _get_next_event do with it is checked below (for the other site)
+            c.ok(where(u, st), f'`{U(st)}`: the dequeued event is returned to the caller of {u.name} (consumers checked there)')
+            continue
         if call_name(call) == 'get_nowait' or isinstance(parent_of(call), ast.Await):
             # value bound directly: `x = q.get_nowait()` / `x = await q.get()`
             if not (isinstance(st, (ast.Assign, ast.AnnAssign)) and isinstance((st.targets[0] if isinstance(st, ast.Assign) else st.target), ast.Name)):
